@@ -31,6 +31,10 @@ NA = {
  "C34": "pure function of the program (inferred types describe run-time values)",
 }
 CHECKS = {
+ "C15": dict(engine="simio", level="fault_enumeration", design="4 C15",
+   technique="stored-image fault enumeration: what File::create + write_all without fsync can leave after a crash, a full disk or bit rot (every truncation, sector holes, bit flips, overwritten length fields, seeded combinations) read back by the real .pyc reader; completed images unmarshalled by CPython",
+   text="For seeded code-object trees (all constant kinds incl. integers beyond 32/63 bits, -0.0/inf/NaN, ASCII/BMP/astral strings, nested tuples and code objects with closures) and for code objects the real compiler produces for generated multi-module projects: every truncation offset is enumerated exhaustively, every 16/64/512/4096-byte sector is zeroed or removed, every single bit is flipped for small images (sampled for larger), 4-byte fields are overwritten with boundary values, and seeded multi-fault combinations are applied; the reader must return Ok or the broken-file error - never panic, abort, overflow the stack or allocate beyond the 2 GiB limit. Each complete image must read back, re-serialise to the same bytes, and be unmarshalled by CPython to equal constants of the same type.",
+   note="Applies to the storage half of C15 plus read-back of completed writes; read-side I/O errors are not injected (no seam below File); CPython 3.11 only; an Ok on a damaged image is not a violation. Trusted: the image transformer, py/pyc_oracle.py."),
  "C19": dict(engine="simthread", level="exploration", design="4 C19",
    technique="deterministic simulation: seeded random/PCT schedules + stall/late-start/late-timer faults over the real package builder; differential oracle against the sequential (PARALLEL=false) build",
    text="Seeded exploration: generated multi-module projects, each built sequentially, under the default schedule and under K seeded schedules with thread faults; bytecode (bytes 16..), success and the multiset of diagnostics must agree. Sampling, not proof: a clean batch is evidence that no schedule dependence exists among the explored interleavings.",
@@ -60,8 +64,7 @@ def main():
     commits = subprocess.run(["git", "-C", "/repo", "log", "--format=%H %s", "affbfc8a..HEAD"], capture_output=True, text=True).stdout.strip().split("\n")
     hooks = [c.split()[0] for c in commits if " verif hook:" in c]
     claimed = [c for c in sorted(CHECKS) if os.environ.get("ONLY") is None or c in os.environ["ONLY"].split(",")]
-    pending = {"C15": "claimed in DESIGN.md (simio: stored-image faults); check not built yet in this commit",
-               }
+    pending = {}
     na = dict(NA)
     for k, v in pending.items():
         if k not in CHECKS:
